@@ -188,6 +188,16 @@ pub struct CheckMeta {
     pub stuck_is_violation: bool,
 }
 
+/// maximum that does not swallow NaN (f64::max returns the other operand when one is NaN, which would
+/// hide a NaN result behind a finite companion)
+pub fn nmax(a: f64, b: f64) -> f64 {
+    if a.is_nan() || b.is_nan() {
+        f64::NAN
+    } else {
+        a.max(b)
+    }
+}
+
 pub struct StuckCase {
     pub stage: String,
     pub index: u64,
